@@ -3,7 +3,11 @@ static long c06_n, c06_acc, c06_rej;
 
 static uint32_t c06_failcc;   /* the command of the workout that was answered TPM_RC_FAILURE */
 static Rsp c06_run(Buf *b) { Rsp r = run(b); if (r.rc == RC_FAILURE && !c06_failcc) c06_failcc = g32(b->p + 6); return r; }
-static int c06_alive(Buf *b) {   /* does the running TPM answer commands? */
+static int c06_alive_(Buf *b);
+/* 1 = works, 2 = in failure mode, 3 = in failure mode because a counter the blob carries stood at its last value (the PCR update
+   counter overflows at the PCR reset of Startup: FATAL_ERROR_COUNTER_OVERFLOW is what the TPM is meant to do then), 0 = no answer */
+static int c06_alive(Buf *b) { int a = c06_alive_(b); return a == 2 && s_failCode == 12 /* FATAL_ERROR_COUNTER_OVERFLOW */ ? 3 : a; }
+static int c06_alive_(Buf *b) {   /* does the running TPM answer commands? */
     c06_failcc = 0;
     Rsp r = tpm2_startup(b, 0);
     if (r.len < 10) return 0;
